@@ -261,6 +261,52 @@ impl Check for Closures {
                         want
                     );
                 }
+                // the same parameter list as a callback: the higher-order forms hand over
+                // (element, index) when the function accepts two arguments, else the element alone,
+                // and a function that accepts neither count is an error in every form
+                if n == 1 && !*spread {
+                    let accepts = |k: usize| k >= r && (*rest || k <= r + o);
+                    let given = if accepts(2) { Some(2) } else if accepts(1) { Some(1) } else { None };
+                    let fsrc = format!("(({}) => [{}])", params.join(", "), names.join(", "));
+                    let psrc = format!("(({}) => true)", params.join(", "));
+                    let want_cb: Obs = match given {
+                        None => Err("arity error".into()),
+                        Some(k) => {
+                            let argv = [num(10.0), num(0.0)];
+                            let mut v: Vec<MV> = Vec::new();
+                            for i in 0..r {
+                                v.push(argv[i].clone());
+                            }
+                            for i in 0..o {
+                                v.push(if r + i < k { argv[r + i].clone() } else { MV::Null });
+                            }
+                            if *rest {
+                                v.push(MV::List((r + o..k).map(|i| argv[i].clone()).collect()));
+                            }
+                            Ok(MV::List(vec![MV::List(v)]))
+                        }
+                    };
+                    for form in [format!("[10] via {}", fsrc), format!("map([10], {})", fsrc)] {
+                        let got = sess.obs(&form);
+                        if !same(&got, &want_cb) {
+                            fail!(format!("arity-callback:r{}o{}rest{}:{}", r, o, *rest as u8, if form.starts_with("map") { "map" } else { "via" }), "`{}` gave {:?}, the callback protocol gives {:?}", form, got, want_cb);
+                        }
+                    }
+                    let want_pred: Obs = if given.is_some() { Ok(MV::List(vec![num(10.0)])) } else { Err("arity error".into()) };
+                    for form in [format!("[10] where {}", psrc), format!("filter([10], {})", psrc)] {
+                        let got = sess.obs(&form);
+                        if !same(&got, &want_pred) {
+                            fail!(format!("arity-callback:r{}o{}rest{}:{}", r, o, *rest as u8, if form.starts_with("filter") { "filter" } else { "where" }), "`{}` gave {:?}, expected {:?}", form, got, want_pred);
+                        }
+                    }
+                    let want_q: Obs = if given.is_some() { Ok(MV::Bool(true)) } else { Err("arity error".into()) };
+                    for form in [format!("every([10], {})", psrc), format!("some([10], {})", psrc)] {
+                        let got = sess.obs(&form);
+                        if !same(&got, &want_q) {
+                            fail!(format!("arity-callback:r{}o{}rest{}:{}", r, o, *rest as u8, &form[..5]), "`{}` gave {:?}, expected {:?}", form, got, want_q);
+                        }
+                    }
+                }
                 Ok(())
             }
         }
